@@ -605,6 +605,9 @@ type planner struct {
 	calls   int
 	badOff  string // first offer that did not start at the first unsent byte
 	streams []uint
+	// timeouts: a temporary fault is reported as a timeout error (Timeout() and Temporary() both
+	// true), which is what an expired write deadline looks like
+	timeouts bool
 }
 
 func (p *planner) write(b []byte, accept func([]byte)) (int, error) {
@@ -633,6 +636,9 @@ func (p *planner) write(b []byte, accept func([]byte)) (int, error) {
 		p.record = append(p.record, b[:k]...)
 		if accept != nil {
 			accept(b[:k])
+		}
+		if p.timeouts && f.Kind == kindTemp {
+			return k, &memnet.TimeoutError{}
 		}
 		return k, faultErr(f.Kind)
 	}
@@ -831,6 +837,32 @@ func runFault(c FaultCase) *ev.Failure {
 			return ev.Failf("harness-conn", "NewConn: %v", err)
 		}
 		w = conn
+	case "server-conn":
+		// a connection ACCEPTED by a Server that has a WriteTimeout; temporary faults look like expired deadlines
+		mc = memnet.NewConn()
+		p.timeouts = true
+		got := make(chan diam.Conn, 1)
+		mux := diam.NewServeMux()
+		mux.HandleFunc("ALL", func(cn diam.Conn, _ *diam.Message) {
+			select {
+			case got <- cn:
+			default:
+			}
+		})
+		lis := memnet.NewListener(1)
+		srv := &diam.Server{Handler: mux, Dict: dict.Default, WriteTimeout: 10 * time.Second}
+		go srv.Serve(lis)
+		defer lis.Close()
+		lis.Push(mc)
+		hello := abstractMsg(50, 0, 0)
+		mc.Feed(hello.RefBytes())
+		select {
+		case w = <-got:
+		case <-time.After(5 * time.Second):
+			mc.Close()
+			return ev.Failf("harness-conn", "the served connection did not dispatch its first request within 5 s")
+		}
+		mc.WriteHook = p.write
 	default:
 		return ev.Failf("harness-case", "unknown transport %q", c.Transport)
 	}
@@ -973,8 +1005,8 @@ var faultSCTPProp = ev.Register(&ev.Prop[FaultCase]{
 
 var faultConnProp = ev.Register(&ev.Prop[FaultCase]{
 	ID: "C07", Name: "faults-conn",
-	Rule: "transport: the diam.Conn returned by diam.NewConn over a memnet.Conn whose Write follows the plan; " + faultRule,
-	Gen:  genFaultCase([]string{"conn"}), Run: runFault, Classify: classifyFault,
+	Rule: "transport: the diam.Conn returned by diam.NewConn over a memnet.Conn whose Write follows the plan, or (1 in 3) the Conn of a connection accepted by a Server with a WriteTimeout whose temporary faults are timeout errors; " + faultRule,
+	Gen:  genFaultCase([]string{"conn", "conn", "server-conn"}), Run: runFault, Classify: classifyFault,
 })
 
 func TestC07Concurrent(t *testing.T) {
